@@ -319,7 +319,43 @@ TEMPLATES = [
 ]
 
 
+DEEP_LEVELS = [20, 40, 65, 70, 100, 130]
+DEEP_WRAPPERS = ["map", "map-same-key", "array", "array-keyed", "paren", "tag", "choice", "mixed"]
+
+
+def deep_doc(rng, wrapper, levels):
+    """one rule whose type nests `levels` containers deep (all of these parse in linear time)"""
+    x = rng.choice(["[ + int ]", "int", "{ leaf: tstr }", "1 .. 5", "tstr .size 3", "~b<int>"])
+    for i in range(levels, 0, -1):
+        w = wrapper if wrapper != "mixed" else rng.choice(["map", "map-same-key", "array", "array-keyed", "paren", "tag", "choice"])
+        if w == "map":
+            x = "{ k%d: %s }" % (i, x)
+        elif w == "map-same-key":
+            x = "{ k: %s }" % x
+        elif w == "array":
+            x = "[ %s ]" % x
+        elif w == "array-keyed":
+            x = "[ ? k%d: %s ]" % (i, x)
+        elif w == "paren":
+            x = "( %s )" % x
+        elif w == "tag":
+            x = "#6.%d( %s )" % (i, x)
+        else:
+            x = "&( k%d: %s )" % (i, x)
+    return "config = %s\n" % x
+
+
 def gen_docs(rng, n_random):
+    docs = gen_docs_shallow(rng, n_random)
+    # deep-nesting family: every wrapper at every level count, spread over the list so that the shards share them
+    deep = [("deep-%s-%d" % (w, lv), deep_doc(rng, w, lv)) for w in DEEP_WRAPPERS for lv in DEEP_LEVELS]
+    step = max(1, len(docs) // (len(deep) + 1))
+    for j, d in enumerate(deep):
+        docs.insert(min(len(docs), (j + 1) * step + j), d)
+    return docs
+
+
+def gen_docs_shallow(rng, n_random):
     docs = [("template", t) for t in TEMPLATES]
     # template variations: the same rule body under 2..3 rule names, and a body repeated inside an array
     for _ in range(max(10, n_random // 20)):
@@ -405,8 +441,14 @@ def evaluate(text, impl_line, model_line_for, fx):
         return ev
     model = [m.split("@")[0] for m in mitems]
     mfirst = [m.split("@")[1] for m in mitems]
-    path_s = [".".join(map(str, p)) if p else "r" for p in path]
-    idx_of_path = {s: i for i, s in enumerate(path_s)}
+
+    class _Paths:      # positions are rendered only for messages (a deeply nested node has a path of ~1000 elements)
+        def __getitem__(self, i):
+            q = path[i]
+            if len(q) > 24:     # abbreviated; the preorder index identifies the node
+                return "%s...%s(depth %d, preorder #%d)" % (".".join(map(str, q[:8])), ".".join(map(str, q[-8:])), len(q), i)
+            return ".".join(map(str, q)) if q else "r"
+    path_s = _Paths()
     labels = [x[1] for x in nodes]
     if flags:
         for f in flags.split(","):
@@ -471,7 +513,7 @@ def evaluate(text, impl_line, model_line_for, fx):
             ev["viol"].append(("node %s (%s) is reachable from the root but the parent query returns None (never registered)"
                                % (path_s[i], KIND_NAMES.get(kind, kind)), {"node": i}))
             continue
-        m = idx_of_path.get(mfirst[i])
+        m = int(mfirst[i]) if mfirst[i].isdigit() and int(mfirst[i]) < n else None
         if (m is not None and m != i and labels[m] == labels[i] and parent[m] is not None
                 and str(labels[parent[m]]) == ans[i] and labels[parent[m]] != labels[parent[i]]
                 and position_free(m, i)):
@@ -480,7 +522,7 @@ def evaluate(text, impl_line, model_line_for, fx):
         else:
             ev["viol"].append(("parent query at node %s (%s) returns class %s, the true parent has class %s, and it is not explained by an earlier "
                                "registered node that is == and carries no distinguishing position" % (path_s[i], KIND_NAMES.get(kind, kind), ans[i], truth), {"node": i}))
-    st.update(span_ignoring=span_ignoring, wrong=wrong, unindexed=unindexed, collisions=collisions, ptr_diff=ptr_diff, wrong_kinds=wrong_kinds,
+    st.update(depth=max(len(p) for p in path), span_ignoring=span_ignoring, wrong=wrong, unindexed=unindexed, collisions=collisions, ptr_diff=ptr_diff, wrong_kinds=wrong_kinds,
               nodup=len(set(labels)) == n, kinds=[x[0] for x in nodes], has_unwrap_args=any(
                   nodes[i][0] == K_UNWRAP and nodes[i][2] >= 2 for i in range(n)), model_line=model_line)
     return ev
@@ -549,6 +591,7 @@ def run(tier, seed):
     docs_with_repeats = docs_nodup = docs_nodup_all_correct = docs_unwrap_args = 0
     wrong_total = unindexed_total = ptr_diff_total = 0
     distinct, samples = set(), []
+    deep_ok = {}
     span_ignoring_seen = {}
     ok_cases = []
     for (cls, text), line in zip(docs, impl):
@@ -576,6 +619,8 @@ def run(tier, seed):
         if st["status"] != "ok" or "kinds" not in st:
             continue
         ok_cases.append((text, st["tok"], st["model_line"], st["nodes"]))
+        if cls.startswith("deep-"):
+            deep_ok[cls] = {"nodes": st["nodes"], "tree_depth": st["depth"], "wrong_parent_answers": st["wrong"]}
         for k in st["span_ignoring"]:
             span_ignoring_seen[KIND_NAMES.get(k, str(k))] = span_ignoring_seen.get(KIND_NAMES.get(k, str(k)), 0) + 1
         node_evals += st["nodes"]
@@ -606,6 +651,10 @@ def run(tier, seed):
     missing_kinds = [KIND_NAMES[k] for k in EXPECTED_KINDS if k not in kind_hist]
     if missing_kinds and len(ok_cases) > 500:
         res.violation("generator degenerate: node kinds never produced: %s" % ", ".join(missing_kinds), {"kind": "generator"}, no_input=True)
+    deep_missing = [c for c, _ in docs if c.startswith("deep-") and c not in deep_ok]
+    if deep_missing:
+        res.violation("deep-nesting documents not accepted or not compared (generator degenerate): %s" % ", ".join(deep_missing[:8]),
+                      {"kind": "generator"}, no_input=True)
     rej = status_hist.get("rejected", 0) + status_hist.get("rejected (parser panic)", 0)
     if evaluations and rej > 0.35 * evaluations:
         res.violation("generator degenerate: %d of %d documents rejected by the parser" % (rej, evaluations), {"kind": "generator"}, no_input=True)
@@ -643,6 +692,8 @@ def run(tier, seed):
         "documents_with_unwrap_generic_args": docs_unwrap_args,
         "kinds_whose_equality_ignores_the_span_baseline": sorted(KIND_NAMES[k] for k in SPAN_IGNORING_BASELINE),
         "kinds_whose_equality_ignores_the_span_observed_documents": span_ignoring_seen,
+        "deep_nesting_family": {"levels": DEEP_LEVELS, "wrappers": DEEP_WRAPPERS, "documents_accepted_and_compared": len(deep_ok),
+                                "documents_generated": len(DEEP_LEVELS) * len(DEEP_WRAPPERS), "per_document": deep_ok},
         "wrong_parent_answers_total": wrong_total,
         "wrong_parent_answers_by_node_kind": wrong_kinds,
         "unindexed_nodes_total": unindexed_total,
